@@ -10,6 +10,7 @@ package actor
 
 import (
 	"github.com/anthdm/hollywood/zzrt"
+	"github.com/anthdm/hollywood/zzshim/context"
 	"github.com/anthdm/hollywood/zzshim/time"
 )
 
@@ -36,8 +37,23 @@ func ZZ_C11() {
 	e.Registry.lookup[rp.pid.ID] = rp
 
 	resps := make([]*Response, R)
-	for i := 0; i < R; i++ {
-		resps[i] = e.Request(rp.pid, zzReq{i}, time.Second)
+	if zzrt.Param("CTXREQ") == 1 {
+		// the requests are made by an actor through its Context (Context.Request); the actor was spawned
+		// WithContext, and that application context may be cancelled while the requests are outstanding (an
+		// actor that asks somebody during shutdown): the waiting is still governed by the request's own timeout
+		actx, acancel := context.WithCancel(context.Background())
+		c := newContext(actx, e, NewPID(e.address, "asker/x"))
+		for i := 0; i < R; i++ {
+			resps[i] = c.Request(rp.pid, zzReq{i}, time.Second)
+		}
+		if zzrt.Choose(2) == 1 {
+			acancel()
+			zzrt.Reach("asking-actor's-context-cancelled")
+		}
+	} else {
+		for i := 0; i < R; i++ {
+			resps[i] = e.Request(rp.pid, zzReq{i}, time.Second)
+		}
 	}
 	zzrt.Assert(len(rp.reqs) == R, "C11:request-not-delivered")
 	collide := false
